@@ -35,7 +35,7 @@ theorem gen_copyBuffer : ∀ B p, B ≤ (Gen.copyBuffer B p).1 ∧ (Gen.copyBuff
 
 theorem gen_finished (t : Tracker) : Gen.trackerFinished t.index t.ifaceSize = t.finished := by
   have : t.iface.isEmpty = decide (t.iface.length = 0) := by cases t.iface <;> simp
-  unfold Gen.trackerFinished Tracker.ifaceSize Tracker.finished
+  simp only [Gen.trackerFinished, Gen.trackerEmpty, Gen.indicesLeft, Gen.trackerOffset, Tracker.ifaceSize, Tracker.finished]
   rw [this]; src_bool
 
 theorem gen_finished_cons (t : Tracker) (i : Nat) (is : List Nat) (h : t.iface = i :: is) :
@@ -44,15 +44,15 @@ theorem gen_finished_cons (t : Tracker) (i : Nat) (is : List Nat) (h : t.iface =
 
 theorem gen_empty (t : Tracker) : Gen.trackerEmpty t.ifaceSize = (t.index == 0 && t.iface.isEmpty) := by
   have : t.iface.isEmpty = decide (t.iface.length = 0) := by cases t.iface <;> simp
-  unfold Gen.trackerEmpty Tracker.ifaceSize
+  simp only [Gen.trackerFinished, Gen.trackerEmpty, Gen.indicesLeft, Gen.trackerOffset, Tracker.ifaceSize]
   rw [this, Bool.eq_iff_iff]; first | (simp; done) | (simp; omega)
 
 theorem gen_indicesLeft (t : Tracker) : Gen.indicesLeft t.index t.ifaceSize = t.indicesLeft := by
-  unfold Gen.indicesLeft Tracker.ifaceSize Tracker.indicesLeft
+  (simp only [Gen.trackerFinished, Gen.trackerEmpty, Gen.indicesLeft, Gen.trackerOffset, Tracker.ifaceSize, Tracker.indicesLeft]) <;>
   first | omega | (simp; done) | (simp; omega)
 
 theorem gen_offset (t : Tracker) : Gen.trackerOffset t.index = t.offset := by
-  unfold Gen.trackerOffset Tracker.offset; first | rfl | omega | simp
+  (simp only [Gen.trackerFinished, Gen.trackerEmpty, Gen.indicesLeft, Gen.trackerOffset, Tracker.offset]) <;> first | rfl | omega | simp
 
 theorem gen_skipStep : Gen.skipStep = 1 := by
   unfold Gen.skipStep; first | rfl | omega | simp
@@ -113,11 +113,11 @@ theorem gen_skipZeroIndices (t : Tracker) : Gen.skipZeroIndices t = t.skipZeroIn
     unfold Gen.skipZeroIndices Tracker.skipZeroIndices
     cases is <;> simp [loopG, Tracker.sizesSize, gen_skipCond_nosizes]
 
-theorem gen_moveToNextIndex (t : Tracker) : Gen.moveToNextIndex t = t.moveToNextIndex := by
-  simp [Gen.moveToNextIndex, gen_skipZeroIndices, Tracker.moveToNextIndex, Tracker.increment]
-
 theorem gen_increment (t : Tracker) (n : Nat) : Gen.increment t n = t.increment n := by
   simp [Gen.increment]
+
+theorem gen_moveToNextIndex (t : Tracker) : Gen.moveToNextIndex t = t.moveToNextIndex := by
+  simp [Gen.moveToNextIndex, gen_increment, gen_skipZeroIndices, Tracker.moveToNextIndex, Tracker.increment]
 
 /-! ### fixedSize is never touched -/
 
